@@ -6,7 +6,7 @@ EXTENDS Grpc, TLC, Json
 
 CONSTANT Emit
 VARIABLE n   \* number of operations performed on the (stateless) interceptor
-Cfgs == [custom : BOOLEAN, customle : BOOLEAN]
+Cfgs == [custom : BOOLEAN, customle : BOOLEAN, named : 0..2]   \* named: name / tag options absent, first, last - never part of the answer
 Ops == [kind : Kinds, grant : BOOLEAN, err : BOOLEAN, cls : {"success", "ignore", "dropped"}, lecode : {"Unavailable", "Aborted"}]
 
 Init == n = 0
